@@ -94,6 +94,10 @@ PROBES = [
     ('p-deep-expr-700', DEEP_FAIL, dict(w=64, use_stl=True, version=1)),
     ('p-deep-expr-in-macro-depth-3000', DEEP_IN_MACRO, dict(w=64, use_stl=False, version=1, max_recursion_depth=3000)),
     ('p-deep-expr-in-macro-depth-default', DEEP_IN_MACRO, dict(w=64, use_stl=False, version=1)),
+    # the failing inputs of the history again: an input that is refused is refused every time, with the same diagnostic class
+    ('p-lex-error-again', LEXFAIL, dict(w=64, use_stl=True, version=1)),
+    ('p-fail-in-nested-ns-again', NSFAIL, dict(w=32, use_stl=False, version=1)),
+    ('p-unknown-macro-again', UNKNOWN, dict(w=64, use_stl=True, version=1)),
     # an invalid file list (the user file carries the short name of the first stl file): refused whether or not the stl parse is cached
     ('p-user-file-with-an-stl-short-name', NOSTL, dict(w=64, use_stl=True, version=1, names=['s1'])),
     ('p-user-file-with-an-stl-short-name-32', NOSTL, dict(w=32, use_stl=True, version=1, names=['s2'])),
